@@ -62,6 +62,9 @@ func (e *sgExpr) render() string {
 	case "n":
 		return sgName(e.S)
 	case "la":
+		if e.Op == "not" {
+			return "(?= !" + sgName(e.S) + ")"
+		}
 		return "(?= " + sgName(e.S) + ")"
 	case "set":
 		var p []string
